@@ -32,6 +32,8 @@ pub struct EmuState {
     /// fail the n-th map-grant ioctl from now (0 = next)
     pub fail_map_in: Option<u32>,
     pub fail_privcmd: bool,
+    /// refuse every map-grant request (EINVAL)
+    pub fail_all_maps: bool,
     /// answer a map request for 0 grants with EINVAL (like the kernel) or with success
     pub zero_count_einval: bool,
     pub max_live: usize,
@@ -88,6 +90,9 @@ impl Emu {
                         }
                     }
                     if count == 0 && s.zero_count_einval {
+                        fail = true;
+                    }
+                    if s.fail_all_maps {
                         fail = true;
                     }
                     // like gntdev_add_map: first fit among the live windows, in pages; the indexes
